@@ -94,26 +94,33 @@ class Parser:
         if not self._excel_file_path:
             raise E2PyclParserException('The file path is not set.')
 
-        excel = Excel.parse(self._excel_file_path)
-        if self._safety_check:
+        # the settings this translation is made for: a setter called meanwhile (another thread) stays pending, see below
+        excel_file_path, entrypoint_cell, safety_check = self._excel_file_path, self._entrypoint_cell, self._safety_check
+
+        excel = Excel.parse(excel_file_path)
+        if safety_check:
             excel.is_safe()
 
         context = Context()
         context._titles = excel.get_titles()
         context._sheets_size = excel.get_sheets_size()
 
-        if self._entrypoint_cell:
+        if entrypoint_cell:
             # the entry cell is read from the workbook being translated, whatever value the caller's object carries
             # (a cell handed out by an Executor holds its computed value and counts as already looked up)
-            CellTranslator.translate(excel.fill_cell(copy(self._entrypoint_cell)), excel, context)
+            CellTranslator.translate(excel.fill_cell(copy(entrypoint_cell)), excel, context)
         else:
             CellTranslator.translate_file(excel, context)
 
         self._translation = context.build_class()
 
-        self._excel_file_path_has_been_changed = False
-        self._entrypoint_cell_has_been_changed = False
-        self._safety_check_has_been_changed = False
+        # a setting is up to date only if it still is the one this translation was made for
+        if self._excel_file_path is excel_file_path:
+            self._excel_file_path_has_been_changed = False
+        if self._entrypoint_cell is entrypoint_cell:
+            self._entrypoint_cell_has_been_changed = False
+        if self._safety_check is safety_check:
+            self._safety_check_has_been_changed = False
 
         return self
 
